@@ -154,6 +154,30 @@ func c19Judge(k c19Case) *vlib.Failure {
 	if fmt.Sprint(again) != fmt.Sprint(ws) {
 		return vlib.Failf("second pass over the same iterator value (after a first pass stopped at %d) yielded %v, want the leaves %v", k.BreakAt, again, ws)
 	}
+	// (4) iterations may be nested (the body of a loop over All(err) ranges over All of another error, or of the same
+	// one): the outer pass must not notice
+	other := errors.Join(&c19Leaf{-7}, errors.Join(&c19Leaf{-8}, &c19Leaf{-9}))
+	var outer []int
+	for e := range cfgerrors.All(err) {
+		inner := 0
+		for range cfgerrors.All(other) {
+			inner++
+		}
+		for range cfgerrors.All(err) {
+			inner++
+		}
+		if inner != 3+len(want) {
+			return vlib.Failf("nested pass yielded %d elements, want %d", inner, 3+len(want))
+		}
+		if e == nil {
+			return vlib.Failf("outer pass yielded nil after a nested pass")
+		}
+		outer = append(outer, c19ID(e))
+	}
+	sort.Ints(outer)
+	if fmt.Sprint(outer) != fmt.Sprint(ws) {
+		return vlib.Failf("outer pass with nested passes in its body yielded %v, want the leaves %v", outer, ws)
+	}
 	// (2) the same through a range statement: a missed early exit makes the Go runtime panic
 	n := 0
 	var got2 []int
